@@ -150,7 +150,7 @@ func runC16(c *Ctx) {
 	}
 	nUpd := 0
 	for _, f := range c.Funcs(pkg) {
-		for _, cs := range c.Calls(f.SSA, Call("stringLRU).update")) {
+		for _, cs := range c.Calls(f.SSA, c.RoleCall("lru.update")) {
 			nUpd++
 			c.Check(closedFalse(cs.In), "C16.K6-closed-test-first", c.short(topFunc(cs.Fn).String())+" › cache update", cs.In.Pos(),
 				"duplicate-cache update dominated by the closed == false edge", "duplicate cache is updated without testing the closed flag first")
